@@ -199,6 +199,8 @@ func verifyFunc(prog *Program, fc *FuncContract) (res *FuncResult) {
 				vals = append(vals, st.vars[r])
 			}
 		}
+		// falling off the end of the body is a return too
+		e.returnsiteChecks(st, &ast.ReturnStmt{Return: body.Rbrace}, vals)
 		fr.returns = append(fr.returns, &retRec{st: st.clone(), vals: vals, ndefer: -1})
 	}
 	for _, rr := range fr.returns {
@@ -336,11 +338,29 @@ func verifyFunc(prog *Program, fc *FuncContract) (res *FuncResult) {
 		for _, m := range fc.Modifies {
 			allowedMod[m] = true
 		}
+		// `modifies p` for a pointer p covers the backing arrays of the slice fields of its pointee
+		var pointeePrefixes []string
+		for _, m := range fc.Modifies {
+			if v, ok := e.resolveModifies(old, env, m); ok && v.GT != nil {
+				if pt, isPtr := v.GT.Underlying().(*types.Pointer); isPtr {
+					pointeePrefixes = append(pointeePrefixes, "*"+typeKey(pt.Elem())+".")
+				}
+			}
+		}
 		framed := map[string]bool{}
 		for _, k := range sortedKeys(final.ghosts) {
 			if strings.HasPrefix(k, "written:") {
 				p := strings.TrimPrefix(k, "written:")
 				if allowedMod[p] {
+					continue
+				}
+				covered := false
+				for _, pre := range pointeePrefixes {
+					if strings.HasPrefix(p, pre) {
+						covered = true
+					}
+				}
+				if covered {
 					continue
 				}
 				framed[p] = true
